@@ -23,9 +23,11 @@ impl ExtendedPrivateKey {
     pub fn new(private_key: &PrivateKey, chain_code: &[u8], depth: &u8, index: &u32, parent_fingerprint: Option<&[u8]>) -> Self {
         let fingerprint = parent_fingerprint.unwrap_or(&[0, 0, 0, 0]);
 
+        // BIP32 serialises, hashes and derives from the compressed point, whatever form the caller holds the key in
+        let public_key = PublicKey::from_private_key_impl(private_key);
         ExtendedPrivateKey {
             private_key: private_key.clone(),
-            public_key: PublicKey::from_private_key_impl(private_key),
+            public_key: public_key.to_compressed_impl().unwrap_or(public_key),
             chain_code: chain_code.to_vec(),
             depth: *depth,
             index: *index,
